@@ -27,3 +27,32 @@ def getRange32 (i c n : Nat) : Nat × Nat :=
     if e ≥ n then (start, n) else (start, e)
 
 end ZV.Rpc
+
+namespace ZV.Rpc
+open ZV
+
+/-- Request arithmetic of `GetAccountBlocksByPage` / `GetMomentumsByPage` (rpc/api/ledger.go): `pageIndex+1` is
+    computed in uint32, everything else in int64 (no overflow for H < 2^63, index, size < 2^32).
+    `none` = the call answers an empty page directly; `some (start, count)` = the height range handed on. -/
+def pageRequest (H i c : Nat) : Option (Nat × Nat) :=
+  let ip1 : Int := ((i + 1) % two32 : Nat)
+  let start : Int := (H : Int) - ip1 * (c : Int) + 1
+  let count : Int := c
+  let tooMuch : Int := 1 - start
+  let start' : Int := if tooMuch > 0 then 1 else start
+  let count' : Int := if tooMuch > 0 then count - tooMuch else count
+  if count' < 1 then none else some (start'.toNat, count'.toNat)
+
+/-- heights a page shows, newest first: the requested range intersected with 1..H, reversed -/
+def pageHeights (H i c : Nat) : List Nat :=
+  match pageRequest H i c with
+  | none => []
+  | some (s, n) => ((List.range n).map (· + s)).filter (· ≤ H) |>.reverse
+
+/-- `GetMomentumsByHeight` / `GetAccountBlocksByHeight`: the heights h … h+count−1 that exist. Nothing wraps around:
+    the momentum variant iterates `for i := from; i < to` with `to = from + count` (empty when that wraps, and then
+    from > H anyway), the account variant stops when `height + i` wraps. -/
+def byHeight (H h count : Nat) : List Nat :=
+  ((List.range count).map (fun k => h + k)).filter (fun x => 1 ≤ x ∧ x ≤ H ∧ x < two64)
+
+end ZV.Rpc
